@@ -561,6 +561,65 @@ Definition comp_string_ok (s : list N) : bool :=
 (* obiapat.c EncodeSequence: a lower-case letter becomes its rank, ANY other byte becomes 0 (the code of 'a') *)
 Definition encode_sequence (bytes : list N) : list N := map (fun b => if is_lower b then (b - 97)%N else 0%N) bytes.
 
+(** ---------------- ApatPattern.IsMatching, ReverseComplement, IsPatternMatchSequence (predicat.go) ---------------- *)
+(* the predicate behind obigrep --approx-pattern: the pattern and its reverse complement are compiled once (an error is fatal:
+   log.Fatalf), then every sequence is asked IsMatching(aseq, 0, aseq.Len()) for the pattern and, when nothing was found and both
+   strands are wanted, for the complemented pattern *)
+Definition is_nil {A : Type} (l : list A) : bool := match l with [] => true | _ :: _ => false end.
+Definition is_matching (pat : pattern) (k : nat) (indel : bool) (text : list N) (begin length : Z) : res bool :=
+  match find_all_index pat k indel text begin length with
+  | Ok l => Ok (negb (is_nil l))
+  | Unmodelled => Unmodelled
+  end.
+(* complementPattern: ecoComplementPattern on the upper-cased string cpat, then CheckPattern / EncodePattern *)
+Definition reverse_complement_pattern (str : list N) : option pattern := parse_pattern (comp_string (map to_upper str)).
+Inductive pred_res := PFatal | PUnmodelled | PBool (b : bool).
+Definition pattern_match_sequence (str : list N) (k : nat) (both indel : bool) (bytes : list N) : pred_res :=
+  match make_pattern str with
+  | None => PFatal
+  | Some pat =>
+      match reverse_complement_pattern str with
+      | None => PFatal
+      | Some cpat =>
+          let text := encode_sequence bytes in
+          let n := Z.of_nat (List.length text) in
+          match is_matching pat k indel text 0 n with
+          | Unmodelled => PUnmodelled
+          | Ok true => PBool true
+          | Ok false =>
+              if both then match is_matching cpat k indel text 0 n with Ok b => PBool b | Unmodelled => PUnmodelled end
+              else PBool false
+          end
+      end
+  end.
+Fixpoint preds_ok (str : list N) (k : nat) (both indel : bool) (seqs : list (list N)) (obs : list bool) : bool :=
+  match seqs, obs with
+  | [], [] => true
+  | s :: seqs', b :: obs' =>
+      match pattern_match_sequence str k both indel s with PBool b' => Bool.eqb b b' | _ => false end &&
+      preds_ok str k both indel seqs' obs'
+  | _, _ => false
+  end.
+
+(* obigrep --approx-pattern p1 --approx-pattern p2 ... --pattern-error k [--allows-indels] [--only-forward] (options.go,
+   CLISequenceAgrep): one predicate object per pattern, both strands unless --only-forward, combined by And; a record is kept iff
+   every predicate holds.  [grep_select]: the ranks (from [i] on) of the records kept, in order *)
+Definition grep_keep (pats : list (list N)) (k : nat) (only_forward indel : bool) (bytes : list N) : option bool :=
+  fold_right (fun str acc =>
+                match acc, pattern_match_sequence str k (negb only_forward) indel bytes with
+                | Some a, PBool b => Some (b && a)
+                | _, _ => None
+                end) (Some true) pats.
+Fixpoint grep_select (i : Z) (pats : list (list N)) (k : nat) (only_forward indel : bool) (seqs : list (list N)) : option (list Z) :=
+  match seqs with
+  | [] => Some []
+  | s :: rest =>
+      match grep_keep pats k only_forward indel s, grep_select (i + 1) pats k only_forward indel rest with
+      | Some b, Some l => Some (if b then i :: l else l)
+      | _, _ => None
+      end
+  end.
+
 Record ccase := mkc {
   cstr : list N; ck : nat; cindel : bool; cseq : list N (* the bytes held by the BioSequence *); cbegin : Z; clength : Z;
   opatlen : Z;
@@ -570,7 +629,9 @@ Record ccase := mkc {
 Inductive anycase :=
 | CMatch (c : ccase)
 | CPatErr (str : list N)                      (* MakeApatPattern returned an error *)
-| CLocate (pat sq : list N) (o : triple).
+| CLocate (pat sq : list N) (o : triple)
+| CPred (str : list N) (k : nat) (both indel : bool) (seqs : list (list N)) (obs : list bool)    (* IsPatternMatchSequence, one object *)
+| CGrep (pats : list (list N)) (k : nat) (only_forward indel : bool) (seqs : list (list N)) (obs : list Z).   (* an obigrep run *)
 
 Definition best_eqb (a b : Z * Z * Z * bool) : bool :=
   let '(s, e, n, mt) := a in let '(s', e', n', mt') := b in
@@ -613,6 +674,9 @@ Definition anycase_ok (c : anycase) : bool :=
   | CMatch c => case_ok c
   | CPatErr str => match make_pattern str with None => true | Some _ => false end
   | CLocate pat sq o => match locate pat sq with Some r => triple_eqb r o | None => false end
+  | CPred str k both indel seqs obs => preds_ok str k both indel seqs obs
+  | CGrep pats k onlyf indel seqs obs =>
+      match grep_select 0 pats k onlyf indel seqs with Some l => list_eqb Z.eqb l obs | None => false end
   end.
 
 Fixpoint mismatches_from (i : nat) (l : list anycase) : list nat :=
